@@ -45,15 +45,15 @@ CHECKS = {
     ),
     "C06": (
         "exploration",
-        "Hypothesis-generated cases (task options x submissions x submission path x runners x schedule seed), one deterministic-scheduler execution each; oracle = replay of a monitor log with harness-computed concurrency keys",
+        "Hypothesis-generated cases (task options x submissions x submission path x runners x schedule seed), one deterministic-scheduler execution each; oracle = replay of a monitor log with harness-computed concurrency keys; plus a complete <= 2-forced-switch search over the Mem status-index / lookup functions on small same-key workloads and a directed housekeeping (auto-purge) family",
         "Each generated case runs runner actors (polls) and worker actors (invocation.run with multi-step bodies and first-attempt retries) under a seeded random / PCT / non-preemptive schedule on Mem (line level) and SQLite (statement level). The monitor's log of accepted transitions, concurrency checks, queue pops and poll failures is replayed: never two RUNNING per key, no failing poll, every block decision has a same-key PENDING/RUNNING holder, blocked invocations end CONCURRENCY_CONTROLLED_FINAL or re-queued per option, nothing available is left un-queued at quiescence.",
-        "Trusted: key computation in the harness; scheduler stand-ins; change visibility bracketed by [record time, return time] so stale-read classifications never rest on a tie. Two listed known findings are excluded by construction and re-confirmed by directed probes.",
+        "Trusted: key computation in the harness; scheduler stand-ins; change visibility bracketed by [record time, return time] so stale-read classifications never rest on a tie. The listed known findings are excluded by construction and re-confirmed by directed probes.",
         "DESIGN.md 3 C06, A.5",
     ),
     "C03": (
         "fault_enumeration",
-        "complete fault enumeration: a hard crash before and after every backend effect of 14 actor-role operations (real code paths, incl. the PersistentProcessRunner and MultiThreadRunner worker entry points run in-process) on Mem and SQLite, each followed by the real recovery tasks and a drain by a surviving runner; invariant oracle over the resulting history",
-        "For every role (client single/batch routing, plain / blocking-priority / concurrency-deferred claim, worker success / failure / retry / not-authorised reroute, kill-and-reroute, pending and running recovery tasks, PPR and MTR worker loops) the effects of the operation are counted in a fault-free run and a crash is injected before and after each one (complete for these scenarios; thorough adds larger batch / claim / recovery sizes); after both recovery limits pass, a survivor runs recover_pending/recover_running and drains; every accepted invocation must be final with its body completed at least once, and its state at the crash instant is classified (queued+available / owned / neither). The windows in which the unchanged code strands an invocation are listed as known findings by role and crash-instant state; anything else is a violation.",
+        "complete fault enumeration: a hard crash before and after every backend effect of 15 actor-role operations (real code paths, incl. the PersistentProcessRunner and MultiThreadRunner worker entry points and the ProcessRunner loop iteration run in-process) on Mem and SQLite, each followed by the real recovery tasks and a drain by a surviving runner; invariant oracle over the resulting history",
+        "For every role (client single/batch routing, plain / blocking-priority / concurrency-deferred claim, worker success / failure / retry / not-authorised reroute, kill-and-reroute, pending and running recovery tasks, PPR and MTR worker loops, ProcessRunner loop iteration) the effects of the operation are counted in a fault-free run and a crash is injected before and after each one (complete for these scenarios; thorough adds larger batch / claim / recovery sizes); after both recovery limits pass, a survivor runs recover_pending/recover_running and drains; every accepted invocation must be final with its body completed at least once, and its state at the crash instant is classified (queued+available / owned / neither). The windows in which the unchanged code strands an invocation are listed as known findings by role and crash-instant state; anything else is a violation.",
         "Trusted: effect boundaries = the wrapped backend methods (queue push/pop, status write, registration, result/exception write, argument index, retry counter, wait graph, invocation upsert); a crash is a BaseException at such a boundary plus refusal of all later effects of the dead actor (SQLite transactions roll back); survivors run sequentially; worker entry points run in-process with inline task threads.",
         "DESIGN.md 3 C03, 2.2",
     ),
